@@ -111,3 +111,14 @@ func VerifC12GRPCCall(addr string, md map[string]string) (code string, peer stri
 	_, cerr := healthpb.NewHealthClient(conn).Check(ctx, &healthpb.HealthCheckRequest{})
 	return status.Code(cerr).String(), local, nil
 }
+
+// VerifC12Listen opens a listener through ListenTCP — the function every fabio listener is made with, here
+// with the PROXY protocol switched on or off as the listen configuration says — and reports the address the
+// kernel assigned (ListenTCP's own Addr() repeats the configured address, port 0 included).
+func VerifC12Listen(l config.Listen) (net.Listener, string, error) {
+	ln, err := ListenTCP(l, nil)
+	if err != nil {
+		return nil, "", err
+	}
+	return ln, ln.(*tcpListener).l.Addr().String(), nil
+}
